@@ -192,7 +192,7 @@ def pick(scopes, names, pred):
 
 
 def is_str_list(v, n=1):
-    return type(v) is list and len(v) >= n and all(type(x) is str for x in v)
+    return type(v) in (list, tuple) and len(v) >= n and all(type(x) is str for x in v)
 
 
 class Spy(dict):
@@ -667,16 +667,30 @@ class CtfProbe:
 
     @memo
     def emsoft_mapping(self):
-        cols = set(self.columns())
-        v, _ = pick(self._scopes("file_reader"), ["emsoft_mapping"],
-                    lambda v: type(v) is dict and v and all(type(k) is str and type(x) is str for k, x in v.items())
-                    and set(v) <= cols)
-        # behaviour: an EMsoft file's properties carry the mapped names
-        tr = self._read("emsoft", "emsoft", self._rows([1, 1, 1, 1], [0, 1, 0, 1], [0, 0, 1, 1]), cells=(2, 2))
-        props = set(tr.result.prop)
-        if not set(v.values()) <= props or set(v) & props:
-            raise Inconsistent(f"emsoft mapping {v}, properties of an EMsoft file {sorted(props)}")
-        return dict(v)
+        """behaviour: the same rows read from an Oxford and from an EMsoft file; properties that carry the same
+        values under different names are the renamed ones (in the order of the Oxford file's properties)"""
+        rows = [[1, x, y, 3 + k, 13 + k, 90.0, 0.0, 0.0, 23.5 + k, 33.5 + k, 43.5 + k]
+                for k, (x, y) in enumerate([(0, 0), (1, 0), (0, 1), (1, 1)])]
+        ox = self._read("map_oxford", "oxford", rows, cells=(2, 2)).result
+        em = self._read("map_emsoft", "emsoft", rows, cells=(2, 2)).result
+        mp = {}
+        for k in ox.prop:
+            same = [j for j in em.prop if np.array_equal(np.asarray(ox.prop[k]), np.asarray(em.prop[j]))]
+            if len(same) != 1:
+                raise ProbeError(f"property {k} of the Oxford file not attributable in the EMsoft file")
+            if same[0] != k:
+                mp[k] = same[0]
+        # the table in the frame / module, if there is one, must say the same
+        try:
+            cols = set(self.columns())
+            v, where = pick(self._scopes("file_reader"), ["emsoft_mapping"],
+                            lambda v: type(v) is dict and v and all(type(k) is str and type(x) is str for k, x in v.items())
+                            and set(v) <= cols)
+        except Exception:
+            v = None
+        if v is not None and dict(v) != mp:
+            raise Inconsistent(f"emsoft mapping table ({where}) {v}, files behave like {mp}")
+        return mp
 
     @memo
     def data_keys(self):
@@ -694,7 +708,7 @@ class CtfProbe:
             header = ["Phases\t1", f"4.0;4.0;4.0\t90;90;90\tname\t{i}\t0"]
             try:
                 pg = quiet(self.m._get_phases_from_header, list(header))["point_groups"]
-            except IndexError:
+            except (IndexError, KeyError):
                 break
             if len(pg) != 1 or type(pg[0]) is not str:
                 raise ProbeError(f"unexpected point_groups {pg}")
@@ -926,7 +940,7 @@ class BrukerProbe:
         n = 6
         order = np.argsort(np.array(iy) * 3 + np.array(ix))
         ident = np.arange(n)
-        stored = {"x": [10.0 + 2 * c for c in ix], "y": [20.0 + 3 * r for r in iy], "phase_id": [1, 2, 3, 3, 1, 2],
+        stored = {"x": [10.0 + 2 * c for c in ix], "y": [20.0 + 3 * r for r in iy], "phase_id": [1, 2, 3, 1, 1, 2],
                   "rotations": [0.5 + k for k in range(n)], "props": [100.0 + k for k in range(n)]}
         data = []
         for nm in BRUKER_DATA:
